@@ -25,7 +25,7 @@ ASSUMPTIONS = [
     "after save_load the old module objects are stale handles that still belong to the discarded project object",
 ]
 REQUIRED_LABELS = {
-    "quick": ["gap_filled", "refused_module", "refused_pattern", "reattach_own", "attach_after_save_load", "note_mod_set", "note_mod_none", "interior_gap", "iadd_list", "attach_origin_synth_file", "attach_origin_clone", "attach_origin_clone_of_attached"],
+    "quick": ["gap_filled", "refused_module", "refused_pattern", "reattach_own", "attach_after_save_load", "note_mod_set", "note_mod_none", "interior_gap", "iadd_list", "attach_origin_synth_file", "attach_origin_clone", "attach_origin_clone_of_attached", "iadd_nested", "iadd_nested_into_gaps"],
     "thorough": ["gap_filled", "refused_module", "refused_pattern", "reattach_own", "attach_after_save_load", "note_mod_set", "note_mod_none", "interior_gap", "iadd_list", "note_mod_unattached_refused", "attach_origin_synth_file", "attach_origin_clone", "attach_origin_clone_of_attached"],
 }
 TYPES = ["Amplifier", "Generator", "Filter", "MultiSynth", "Echo"]
@@ -50,7 +50,7 @@ def history(draw, max_steps):
     k = draw(st.integers(1, max_steps))
     P = st.integers(0, nproj - 1)
     sel = st.integers(0, 40)  # resolved modulo what exists at run time
-    kinds = ["new", "new", "attach_fresh", "attach_own", "attach_foreign", "attach_none", "iadd_module", "iadd_list", "iadd_pattern", "iadd_clone", "attach_pattern", "attach_pattern_owned", "attach_pattern_none", "note_set_module", "note_set_mod", "note_set_mod_unattached", "save_load", "blank_reload"]
+    kinds = ["new", "new", "attach_fresh", "attach_own", "attach_foreign", "attach_none", "iadd_module", "iadd_list", "iadd_nested", "iadd_pattern", "iadd_clone", "attach_pattern", "attach_pattern_owned", "attach_pattern_none", "note_set_module", "note_set_mod", "note_set_mod_unattached", "save_load", "blank_reload"]
     for _ in range(k):
         kind = draw(st.sampled_from(kinds))
         op = [kind, draw(P)]
@@ -63,6 +63,10 @@ def history(draw, max_steps):
         elif kind == "iadd_list":
             op.append([draw(st.sampled_from(TYPES)) for _ in range(draw(st.integers(1, 3)))])
             op.append(draw(st.sampled_from(ORIGINS)))
+        elif kind == "iadd_nested":
+            # += takes lists of lists too: a tree of module types (leaves) and patterns ("P")
+            leaf = st.sampled_from(TYPES + ["P"])
+            op.append(draw(st.lists(st.one_of(leaf, st.lists(st.one_of(leaf, st.lists(leaf, max_size=2)), max_size=3)), min_size=1, max_size=3)))
         elif kind in ("note_set_module", "note_set_mod"):
             op += [draw(sel), draw(sel), draw(sel)]
         elif kind == "note_set_mod_unattached":
@@ -176,6 +180,7 @@ def run_history(ctx, h):
         kind, pi = op[0], op[1]
         p = w.projects[pi]
         before = struct_snapshot(w)
+        before_slots = list(w.slots[pi])
 
         def attach_new(mod, how):
             uid = w.new_uid()
@@ -227,6 +232,29 @@ def run_history(ctx, h):
                 attach_new(mod, "iadd")
             p += mods
             labels.add("iadd_list")
+        elif kind == "iadd_nested":
+            def realise(tree):
+                out = []
+                for x in tree:
+                    if isinstance(x, list):
+                        out.append(realise(x))
+                    elif x == "P":
+                        pat = Pattern(tracks=1, lines=1)
+                        uid = "p%d" % (len(w.pats) + 1)
+                        w.pats[uid] = pat
+                        w.pat_model[pi].append(uid)
+                        out.append(pat)
+                    else:
+                        mod = w.fresh(x)
+                        attach_new(mod, "iadd")
+                        out.append(mod)
+                return out
+
+            tree = realise(op[2])
+            p += tree
+            labels.add("iadd_nested")
+            if any(isinstance(x, list) and x for x in op[2]) and None in before_slots:
+                labels.add("iadd_nested_into_gaps")
         elif kind == "attach_none":
             p.attach_module(None)
             w.slots[pi].append(None)
